@@ -135,5 +135,7 @@ def run(ck, ctx):
         newinit = "sim::mem::Word::new_init" in repr([cb.expr_of_operand(a, 4) for _, t, c, _ in cb.calls() if (c or "").endswith("Iterator::map") for a in t["args"]])
         ck.ob("C29.4", "init-vs-uninit", ok and len(mapped) == 1 and newinit,
               "Some-chunks are written as Word::new_init(v) by copy_from_slice; None-chunks only call clear_init() (3 + 3 sites)", where)
+    ck.include("C21", ctx, "C29.5", {"C21.2"}, "a file with unresolved externals is rejected before anything is copied")
+    ck.include("C08", ctx, "C29.6", {"C08.5"}, "memory/register accessors used by the loader and the constructor")
     ck.assume("that no *other* word changes needs the index arithmetic as values; decided here only as: the sole memory accesses are the six range slices of total length chunk.len()")
     ck.assume("registers and the PC are outside load_obj_file's write set (frame rule); the OS image contents are os.asm's (C11)")
